@@ -108,6 +108,13 @@ def run_property(pid: str, tier: str, seed: int, explain: bool = False) -> int:
             })
             for o in obligations[:3]:
                 samples.append({"rule": result.rule, **o})
+        selftest = None
+        selftest_code = 0
+        if tier == "thorough":
+            from .selftest import run_selftest
+
+            selftest_code, selftest = run_selftest(pid, seed)
+            # entry points reaching each finding / confirmed exception
         wall = time.time() - started
         # output
         replay_dir = os.path.join(EVIDENCE_DIR, "replay")
@@ -143,6 +150,7 @@ def run_property(pid: str, tier: str, seed: int, explain: bool = False) -> int:
             "calls_resolved": ctx.resolved_calls,
             "calls_unresolved": ctx.unresolved_calls,
             "source_digests": ctx.repo.digest(),
+            "self_validation": selftest if selftest is not None else "thorough tier only",
             "known_findings_printed": [
                 {"id": e.get("id"), **f.to_json()} for f, e in known_hits
             ],
@@ -160,6 +168,8 @@ def run_property(pid: str, tier: str, seed: int, explain: bool = False) -> int:
         write_json(os.path.join(EVIDENCE_DIR, f"{pid}.json"), evidence)
         print(f"{pid} {tier}: {total_ok}/{total_ob} rule instances hold, "
               f"{len(violations)} violation(s), {len(known_hits)} known finding(s), {wall:.2f}s")
+        if exit_code == 0 and selftest_code != 0:
+            return selftest_code
         return exit_code
     except AnalysisError as exc:
         print(f"ANALYSIS-ERROR property={pid} {exc}")
